@@ -304,6 +304,9 @@ def rgen_generated_decoders(ctx):
     ctx.R.floor("C16.GEN", nd, 40, "parameter reads in generated server closures")
     na = c17.server_args_come_from_decoders(ctx, "C16.GEN")
     ctx.R.floor("C16.GEN.args", na, 60, "decoded arguments of generated server closures")
+    # an optional element past the end is absent: Option-typed parameters (whatever path spells `Option`) are read with
+    # optional_next, required ones with next (C17.W3 and the other wiring obligations over the corpus)
+    c17.w_rules(ctx)
     nr = c17.subscription_decode_failures_are_rejected(ctx, "C16.GEN")
     ctx.R.floor("C16.GEN.reject", nr, 10, "parameter reads in generated subscription closures")
 
@@ -408,6 +411,31 @@ def rjudge_only_the_decoders_say_invalid_params(ctx):
     R.floor("C16.R5", n, 600, "library bodies scanned")
 
 
+def rraw_params_text_is_not_reparsed(ctx):
+    """the params text a handler reads is the text that was sent: on the server side (server crate, core::server, types)
+    no incoming message is parsed into a `serde_json::Value` and decoded from there - a RawValue obtained from a Value is a
+    re-rendering (wide integers pass through f64, duplicate keys collapse, deep nesting fails earlier), so the same call
+    would be answered differently inside a batch than alone."""
+    F, R = ctx.F, ctx.R
+    n = 0
+    bad = []
+    for b in F.real_bodies():
+        if is_test_body(b) or not (b.crate in ("jsonrpsee_server", "jsonrpsee_types") or re.search(r"^<?jsonrpsee_core::(server|http_helpers|middleware|params)", b.path)):
+            continue
+        n += 1
+        for c in b.calls:
+            nm = c.name() or ""
+            VAL = r"(^|<|, |&)(serde_json::Value|serde_json::value::Value|jsonrpsee_core::JsonValue|jsonrpsee_types::JsonValue)\b"
+            if (re.search(r"^serde_json::(de::)?(from_slice|from_str|from_reader|from_value)$|^serde_json::(value::)?to_value$|Deserialize<'\w+> for [^>]*>::deserialize$|Deserialize<'\w+>>::deserialize$", nm) and any(re.search(VAL, g) for g in (c.ga or []))) or re.search(r"serde_json::Value as .*Deserializer<|serde_json::value::de::", nm):
+                bad.append(c)
+    for c in bad:
+        R.fn(c.body)
+        R.bad("C16.VALUE", "%s:%s" % (fkey(c.body), (c.name() or "").split("::")[-1]), "%s parses / decodes through serde_json::Value (%s): the params text handed to the handler is then a re-rendering of what was sent, not the text itself" % (short(c.body.path), short(c.name())), where(c))
+    if not bad:
+        R.ok("C16.VALUE", "no-value-roundtrip", "no message is decoded through serde_json::Value in %d server-side bodies" % n)
+    R.floor("C16.VALUE", n, 400, "server-side bodies scanned")
+
+
 def rplain_request_decoder(ctx):
     """the params text reaches the decoders whatever its shape: the Request / Notification decoders are the plain derived
     ones (a validation hook on `params` makes the server take a call with scalar params for a notification and never
@@ -416,7 +444,7 @@ def rplain_request_decoder(ctx):
     c01.r8_classifiers_are_plain(ctx)
 
 
-LIB_RULES = [rjudge_only_the_decoders_say_invalid_params, rplain_request_decoder, rrej_rejections_are_driven, r1_only_invalid_params, r2_poison_on_error, r3_exhaustion_table, r4_absent_params, rown_into_owned, rnext_reads_T, rws_separator_sees_no_whitespace, rone_is_one_array_parse]
+LIB_RULES = [rraw_params_text_is_not_reparsed, rjudge_only_the_decoders_say_invalid_params, rplain_request_decoder, rrej_rejections_are_driven, r1_only_invalid_params, r2_poison_on_error, r3_exhaustion_table, r4_absent_params, rown_into_owned, rnext_reads_T, rws_separator_sees_no_whitespace, rone_is_one_array_parse]
 CONFIGS_QUICK = ["libs-all", "corpus"]
 CONFIGS_THOROUGH = ["libs-all", "facade-full", "corpus"]
 
